@@ -64,6 +64,8 @@ pub mod test_util;
 pub mod tree_node;
 pub mod types;
 pub mod utils;
+#[cfg(datafusion_verif)]
+pub mod verif;
 
 /// Reexport arrow crate
 pub use arrow;
